@@ -49,6 +49,16 @@ def gen_cases(tier, rng):
                 yield make_case(h, call, [i["kind"], i["field"], i["idx"]], True)
 
 
+def defines(case):
+    """re-try the class definitions of a case the generator could not build; error text or None"""
+    ib._CACHE.clear()
+    try:
+        ib.build(case["hspec"])
+        return None
+    except Exception as e:  # noqa: BLE001
+        return f"{type(e).__name__}: {e}"
+
+
 def observe(case):
     if "__gen_error__" in case:
         raise RuntimeError("class spec did not define: " + case["__gen_error__"])
